@@ -362,6 +362,7 @@ def run(ctx):
 
     # ------------------------------------------------------------- R20.4
     n_sites = 0
+    strpos._DB[0] = db
     for fn in db.functions:
         if "/interrogatedb/" not in fn.file or "py_" in fn.file:
             continue
